@@ -1,7 +1,7 @@
 """C10: coroutine tasks map sender results faithfully and always run their cleanup (plan interpreter, det)."""
 from .. import core, coro_check, mt_check
 
-TIERS = {"quick": (60, 70), "thorough": (600, 160)}
+TIERS = {"quick": (60, 70), "thorough": (400, 120)}
 
 ASSUME = [
     "g++ 12 -std=c++20 coroutines only (the pinned test build is C++17 and compiles none of this code)",
@@ -38,7 +38,7 @@ def run(tier, seed, verdict):
     # multi-threaded part: the stop request really comes from another thread (stop_when's trigger timer on a second
     # context) while the task tree runs on its own timed context; ASan+UBSan and TSan builds
     res = mt_check.MtResult()
-    it = 1500 if tier == "quick" else 60000
+    it = 1500 if tier == "quick" else 15000
     for variant in ("asan20d", "tsan20d"):
         n = it if variant.startswith("asan") else it // 2
         # hook sites in task.hpp: 451 stop callback about to start the deferred stop request, 452 task completion about to
